@@ -127,7 +127,7 @@ def run(ctx):
         "multi_limb_cases": sum(v for k, v in summary.get("cases_per_type", {}).items() if "u256" in k or "u512" in k),
         "rule": "pipeline: one generated Cairo function per (operation, type) -- u256 wide_mul / wide_square / "
                 "mul_mod_n / inv_mod / div_mod_n / u512 div_rem_by_u256 on the FULL cross product of per-limb "
-                "boundary values {0,1,2^64,2^128-2,2^128-1} (thorough: + {2,2^63,2^64-1,2^127}) and on perfect squares "
+                "boundary values {0,1,2^64,2^128-2,2^128-1} (thorough: + {2^64-1,2^127}) and on perfect squares "
                 "+-2, r^2+2r(+1), (2^127+k)^2+2k(+-1); operators + - * / % == != < <= > >= "
                 "& | ^ ~ unary -, checked_/wrapping_/saturating_/overflowing_ add sub mul, wide_mul, sqrt, DivRem, "
                 "Into/TryInto between all integer types, u256 and felt252, felt252 + - * neg div -- run through "
